@@ -15,9 +15,9 @@ ASSUMPTIONS = [
     "the iteration order of a std::unordered_map is unspecified: it enters the model as an input (checked to be a permutation of the "
     "model's own table at every walk) and every theorem is stated for all orders; an unmodified table is walked in the same order every time",
     "std::hash<std::string> and std::hash<double> are abstract functions in the hash theorem; the only fact used is that std::hash<double> "
-    "gives +0.0 and -0.0 the same hash (libstdc++ returns 0 for both)",
+    "gives +0.0 and -0.0 the same hash (libstdc++ returns 0 for both) and is deterministic on the quiet NaN that GetHash<double> substitutes for every NaN",
     "sums are compared with integer-valued measurements only (int64 counters, or doubles that are small integers), and no int64 sum overflows",
-    "'the same value' for doubles means numerically equal (+0 = -0) and NaN = NaN; a const char* value is the string up to its first NUL",
+    "'the same value' for doubles means numerically equal (+0 = -0) and NaN = NaN (any payload); a const char* value is the string up to its first NUL",
     "single-threaded histories (recording and collection do not race; see C06 for the locking)",
     "a cardinality limit >= 1; through a MeterProvider the limit is the default kAggregationCardinalityLimit (no public setter at this commit)",
 ]
@@ -389,8 +389,8 @@ def st_case(rng, limit=None, nan=False, mp=False):
     else:
         head = "ST %s %d %d %d %s %s" % (kind, 1 if mono else 0, limit, len(temps), " ".join(map(str, temps)), tok_filter(f))
     line = head + " | " + " | ".join(ops)
-    # a NaN key crashes Collect on the merge path (open finding F20): such cases run in a child process
-    return ("ISO " + line) if nan else line
+    # a few of the NaN cases run in a child process (the shape of the repaired F26b crashed the collection)
+    return ("ISO " + line) if nan and rng.chance(1, 4) else line
 
 
 def big_case(rng, mp, cycles, per_cycle, nsets):
@@ -411,7 +411,7 @@ def big_case(rng, mp, cycles, per_cycle, nsets):
 
 
 def st_fixed():
-    """the shapes of the repaired defects F9, F10, F10b and of the open one (F20), every run"""
+    """the shapes of the repaired defects F9, F10, F10b, F26, F26b, every run"""
     def r(i, v=1):
         return "R %d 1 %s i64 %d" % (v, hx(b"k"), i)
     out = []
@@ -427,7 +427,7 @@ def st_fixed():
     out.append("ST L 1 3 1 1 F0 | " + " | ".join([ov, r(0), r(1), r(2), "C 0", r(3), ov, "C 0"]))
     # no-attribute records and an allow-list that removes everything
     out.append("ST L 0 4 2 0 1 F | " + " | ".join(["R0 3", r(0, -2), r(1, 4), "C 0", "C 1", "R0 1", "C 1", "C 0"]))
-    # F20: NaN attribute value; single delta reader (no crash, a series per measurement), then the merge path (crash)
+    # F26 / F26b: NaN attribute value; single delta reader (was: a series per measurement), then the merge path (was: crash)
     nanr = "R 1 1 %s d %d" % (hx(b"k"), QNAN)
     out.append("ISO ST L 1 5 1 0 F0 | " + " | ".join([nanr, nanr, "C 0"]))
     out.append("ISO ST L 1 5 1 1 F0 | " + " | ".join([nanr, "C 0"]))
